@@ -331,6 +331,12 @@ fn collect_mutations(fields: &[Field], t: &TV, path: &mut Vec<PathEl>, out: &mut
             match (&fld.sch, v) {
                 (Sch::Str(_), _) => out.push(Mutation { path: path.clone(), kind: MutKind::Retype(fld.key.to_string(), "str->int") }),
                 (Sch::Bool, _) => out.push(Mutation { path: path.clone(), kind: MutKind::Retype(fld.key.to_string(), "bool->str") }),
+                (Sch::StrArray(SK::Sbom), TV::Array(a)) if !a.is_empty() => {
+                    out.push(Mutation { path: path.clone(), kind: MutKind::Retype(fld.key.to_string(), "array->str") });
+                    out.push(Mutation { path: path.clone(), kind: MutKind::Retype(fld.key.to_string(), "elem->int") });
+                    // a media type the format does not define, next to defined ones
+                    out.push(Mutation { path: path.clone(), kind: MutKind::Retype(fld.key.to_string(), "elem->unknown-enum-value") });
+                }
                 (Sch::StrArray(_), _) => {
                     out.push(Mutation { path: path.clone(), kind: MutKind::Retype(fld.key.to_string(), "array->str") });
                     out.push(Mutation { path: path.clone(), kind: MutKind::Retype(fld.key.to_string(), "elem->int") });
@@ -392,6 +398,14 @@ fn apply(doc: &TV, m: &Mutation) -> TV {
                 "str->int" => TV::Int(7),
                 "bool->str" => TV::s("true"),
                 "array->str" | "table->str" | "tablearray->str" => TV::s("x"),
+                "elem->unknown-enum-value" => match slot {
+                    TV::Array(a) => {
+                        let mut a = a.clone();
+                        a.insert(1.min(a.len()), TV::s("application/x-not-an-sbom-format+json"));
+                        TV::Array(a)
+                    }
+                    _ => TV::s("x"),
+                },
                 "tablearray->table" => match slot {
                     TV::Array(a) if !a.is_empty() => a[0].clone(),
                     _ => TV::s("x"),
